@@ -332,21 +332,31 @@ class SrvAdapter:
     # ------------------------------------------------------------- actions
     def _frames(self, a):
         """Rx* action -> list of engine.io MESSAGE payloads."""
+        if self.cfg.get('serializer') == 'msgpack':
+            return self._frames_mp(a)
+        return self._frames_with(a, refcodec.ref_encode)
+
+    def _frames_mp(self, a):
+        if a['act'] == 'RxRaw':
+            return [MP_RAW_FRAMES[a['frame']]()]
+        return self._frames_with(a, refcodec.mp_encode)
+
+    def _frames_with(self, a, enc):
         act = a['act']
         ns = a.get('ns')
         if act == 'RxConnect':
             auth = a['auth']
             data = None if auth == 'absent' else {'b': auth[5:]} \
                 if auth.startswith('auth:') else val(auth)
-            return refcodec.ref_encode(0, ns, None, data)
+            return enc(0, ns, None, data)
         if act == 'RxDisconnect':
-            return refcodec.ref_encode(1, ns)
+            return enc(1, ns)
         if act == 'RxEvent':
             id = None if a['id'] < 0 else a['id']
-            return refcodec.ref_encode(
+            return enc(
                 2, ns, id, [a['ev']] + [val(x) for x in a['args']])
         if act == 'RxAck':
-            return refcodec.ref_encode(
+            return enc(
                 3, ns, a['id'], [val(x) for x in a['args']])
         if act == 'RxRaw':
             return [RAW_FRAMES[a['frame']]]
@@ -481,6 +491,8 @@ class SrvAdapter:
             res = ['contained'] + list(self.tap.seen)
             if act == 'RxRaw':
                 res = ['contained', 'X']   # which exception is immaterial
+            if act == 'RxFrame' and self.cfg.get('serializer') == 'msgpack':
+                res = ['contained', 'ValueError']
         if self.bgexc and res == ['ok']:
             res = ['bgexc'] + list(self.bgexc)
         rset = []
@@ -557,6 +569,13 @@ class SrvAdapter:
             return before
 
     def _bin_frame(self, a):
+        if a['kind'] == 'hdr' and self.cfg.get('serializer') == 'msgpack':
+            # a packet that CLAIMS to be a binary event: the msgpack
+            # serializer never produces one, a hostile client can
+            ptype = 5 if a['ty'] == 'BINARY_EVENT' else 6
+            data = [a['ev']] if ptype == 5 else []
+            return refcodec.mp_encode(ptype, a['ns'], None if a['id'] < 0
+                                      else a['id'], data)[0]
         if a['kind'] == 'hdr':
             ptype = 5 if a['ty'] == 'BINARY_EVENT' else 6
             id = None if a['id'] < 0 else a['id']
@@ -637,7 +656,9 @@ class SrvAdapter:
                 else:
                     frames.append(p.data)
             if frames:
-                pk[t] = [self._pkt_tok(p) for p in refcodec.read_frames(frames)]
+                rd = refcodec.mp_read_frames if self.cfg.get(
+                    'serializer') == 'msgpack' else refcodec.read_frames
+                pk[t] = [self._pkt_tok(p) for p in rd(frames)]
                 for p in pk[t]:
                     if p['ty'] in ('EVENT', 'BINARY_EVENT') and p['id'] >= 0:
                         who = self._sid_name_of(t, p['ns'])
@@ -837,3 +858,35 @@ RAW_CLASS = {k: 'contained' for k in RAW_FRAMES}
 for _k in ('acknum', 'strpayload', 'intevent', 'nullevent', 'ackunknownns',
            'evunknownns'):
     RAW_CLASS[_k] = 'ignored'
+
+
+# the same for a server that uses the msgpack serializer
+def _mp(obj):
+    import msgpack
+    return lambda: msgpack.dumps(obj)
+
+
+MP_RAW_FRAMES = {
+    'garbage': lambda: b'\xc1\xff\x00', 'empty': lambda: b'',
+    'text': lambda: '2["e_v","v1"]',          # a text frame to a msgpack server
+    'int': _mp(5), 'list': _mp([2, '/', ['e_v']]), 'nil': _mp(None),
+    'notype': _mp({'data': ['e_v'], 'nsp': '/'}),
+    'nonsp': _mp({'type': 2, 'data': ['e_v']}),
+    'connerr': _mp({'type': 4, 'data': 'x', 'nsp': '/'}),
+    'type9': _mp({'type': 9, 'data': None, 'nsp': '/'}),
+    'typestr': _mp({'type': '2', 'data': ['e_v'], 'nsp': '/'}),
+    'dictpayload': _mp({'type': 2, 'data': {'a': 1}, 'nsp': '/'}),
+    'nodata': _mp({'type': 2, 'nsp': '/'}),
+    'emptylist': _mp({'type': 2, 'data': [], 'nsp': '/'}),
+    'deep': lambda: b'\x91' * 3000 + b'\xc0',
+    # decodes, nothing is responsible / nothing happens
+    'evunknownns': _mp({'type': 2, 'data': ['e_v', 'v1'], 'nsp': '/zzz',
+                        'id': 7}),
+    'ackunknownns': _mp({'type': 3, 'data': ['v1'], 'nsp': '/zzz', 'id': 1}),
+    'intevent': _mp({'type': 2, 'data': [5], 'nsp': '/'}),
+    'surplus': _mp({'type': 3, 'data': ['v1'], 'nsp': '/', 'id': 424242,
+                    'extra': {'a': [1, 2]}, 'more': b'\x00'}),
+}
+MP_RAW_CLASS = {k: 'contained' for k in MP_RAW_FRAMES}
+for _k in ('evunknownns', 'ackunknownns', 'intevent', 'surplus'):
+    MP_RAW_CLASS[_k] = 'ignored'
